@@ -125,6 +125,24 @@ def run(pid, tier, replay):
                     v.violation("%s on the real Muxer, schedule %s (%s)" % (inv, sig, d), rp, signature=inv + ":" + sig)
                 else:
                     unconfirmed.append({"invariant": inv, "schedule": sig})
+        if pid == "C06":
+            # delta updates (_HLS_skip=YES / v2): after every Write of Low-Latency histories the delta response must be the full
+            # playlist of the same instant minus its first SKIPPED-SEGMENTS entries (sequential muxer harness)
+            import random
+            from props import muxer, muxgen
+            rnd = random.Random(vlib.seed() * 7919 + 6)
+            scs = muxgen.general(rnd, 48 if tier == "quick" else 600, (60, 200), variants=("ll",))
+            scs += muxgen.long_rotations(rnd, 8 if tier == "quick" else 48, 40 if tier == "quick" else 200, variants=("ll",))
+            tr = muxer.replay_sharded(binary, scs, work, "delta", ["-noemit", "-delta"])
+            tc = vlib.validate_trace_parallel("MuxTrace", "Trace_mux_C06.cfg", tr, pid, tag="delta")
+            if tc.incomplete:
+                raise vlib.Inconclusive("trace not consumed: " + tc.incomplete[0])
+            total_lines += tc.lines
+            total_traces += tc.traces
+            states += tc.states
+            for inv, rp, d in tc.failures:
+                sig, what = muxer.signature(rp)
+                v.violation("%s: %s (%s)" % (inv, what, d), rp, signature="delta:" + sig)
         if pid == "C07":
             # Close after a write history in every variant / storage mode (sequential muxer harness): directory empty
             import random
